@@ -32,14 +32,19 @@ fn k_c01_e2e(depth: u8) {
 
 /// Lemma R on the real producer: base cell and in-base-cell coordinates of every position are in the range the scaling step relies on.
 /// region: 0 = north cap (lat > T), 1 = equatorial (|lat| <= T), 2 = south cap; neg: sign bit of lon
-fn k_c01_r(region: u8, neg: bool) {
+fn k_c01_r(region: u8, neg: bool, lite: bool) {
   let (lon, lat) = lonlat();
   kani::assume((lon.to_bits() >> 63 == 1) == neg);
   kani::assume(match region { 0 => lat > C_T, 1 => lat >= -C_T && lat <= C_T, _ => lat < -C_T });
   let (d0h, l, h) = Layer::d0h_lh_in_d0c(lon, lat);
   kani::cover!(lon > 7.0 || lon < -7.0, "second turn");
   kani::cover!(lon == 0.0, "zero longitude");
-  assert!(guarantee_r(d0h, l, h), "C01-R: base cell / in-cell coordinates out of the range the scaling step relies on");
+  if lite {
+    // everything but the sign clause (no -0.0 / negative subnormal), which is only needed by the depth-0 scaling in the dev profile
+    assert!(d0h < 12 && l.is_finite() && h.is_finite() && (h + l) < TWO_P && (h - l) < TWO_P, "C01-R: base cell / in-cell coordinates out of the range the scaling step relies on");
+  } else {
+    assert!(guarantee_r(d0h, l, h), "C01-R: base cell / in-cell coordinates out of the range the scaling step relies on");
+  }
 }
 
 /// Lemma P on the real producer: (base cell, l, h) is the reference projection of the position, from the same libm values.
@@ -79,8 +84,11 @@ fn k_c01_p(region: u8, neg: bool, bits: u8) {
       // base cell = the facet of the longitude; l has the side of the longitude in its facet and stays inside the facet
       assert!(d0h as f64 == q + if region == 0 { 0.0 } else { 8.0 }, "C01-P: wrong polar base cell for the longitude");
       let al = if l < 0.0 { -l } else { l };
-      assert!(al <= t + tol && (l == 0.0 || (l < 0.0) == (xm2 < 1.0)), "C01-P: l is outside the facet or on the wrong side of its centre (polar cap)");
-      if bits > 0 {
+      assert!(l == 0.0 || (l < 0.0) == (xm2 < 1.0), "C01-P: l is on the wrong side of the facet centre (polar cap)");
+      if bits == 255 {
+        // |l| = |x t| <= t needs the monotonicity of the float multiplier: 20+ min, thorough tier
+        assert!(al <= t + tol, "C01-P: l is outside the facet (polar cap)");
+      } else if bits > 0 {
         // exact product clause, for cosines with at most `bits` significant bits (two symbolic 53x53 multipliers are out of reach)
         let narrow = (c.to_bits() & ((1u64 << (53 - bits as u32)) - 1)) == 0;
         kani::cover!(narrow, "product clause reached");
